@@ -389,6 +389,19 @@ FORMATS_24 = ("%s %F %X", "%F %X %s", "%d %s %j %H", "%H:%M:%S %s %Y-%m-%d",
 
 def workload(ctx, repo):
     rng = ctx.rng
+    # every punctuation character as literal text between directives (none
+    # of them means anything to strptime)
+    if ctx.worker == 0:
+        for j, c in enumerate("|()[]{}*+?.^$\\#&~!<>=@'\"`;,"):
+            for fmt in ("%F" + c + "%X" + c + "%z",
+                        "%Y" + c + "%m" + c + "%d %H:%M:%S %z",
+                        c + "%Y-%j %H%M%S%z" + c, "%z" + c + c + "%F %X"):
+                kw = make_point(rng)
+                case = {"op": "roundtrip", "p": kw, "fmt": fmt,
+                        "assumed": [0, 0]}
+                ctx.case = case
+                ctx.ev("cases.literal-punctuation")
+                run_case(ctx, repo, case)
     # %s beside other directives, before and after them: the Unix time
     # decides the instant wherever it stands in the format
     for j in range(60 if ctx.tier == "quick" else 240):
